@@ -2,7 +2,7 @@
 REG = dict(
     engine='E1-enum',
     technique='bounded-exhaustive enumeration of syntax trees x layouts (every <=k-gap deviation from the canonical layout over an 8-separator alphabet, string-literal content variants), differential oracle on the real formatter and the real parser',
-    text='Programs: quick = every production over 5 leaves (1906 depth-1 trees), a reduced depth-2 set (1281 trees over 7 representative children), 58 representatives incl. a string literal in every literal position, and a definition-level set of 682 programs (function/method signatures whose line length is swept across the 100-column wrap limit with 0-3 parameters, every item kind with optional parts on/off, doc comments, all ordered pairs of 12 items); thorough = the full C33 depth-1 (8483) and depth-2 (64774) sets and 2202 definition programs (lengths 95-107, 0-5 parameters). Each program is rendered under every layout with <=1 gap (thorough: <=2 gaps for the representative, string-variant-of-representative and small-definition groups) deviating from the canonical layout, gap alphabet {glued, 1 space, 3 spaces, newline, newline+indent, blank lines, line comment, tab} incl. the gaps before the first and after the last token, and with every string literal (each literal position, and all at once) replaced by multi-line / brace-at-line-start / `//` / blank-line contents. Layouts the real parser does not map to the canonical tree are dropped and counted. Oracle on format(layout): parses without errors; structurally equal tree (the parser\'s own structural equality: identifiers, literal values, string contents, doc comments; positions, ids and comma positions ignored), same ordered comment texts, and the same text once whitespace and commas are erased. Exhaustive within these bounds.',
+    text='Programs: quick = every production over 5 leaves (1906 depth-1 trees), a reduced depth-2 set (over 7 representative children), 58 representatives incl. a string literal in every literal position, and a definition-level set of 682 programs (function/method signatures whose line length is swept across the 100-column wrap limit with 0-3 parameters, every item kind with optional parts on/off, doc comments, all ordered pairs of 12 items); thorough = the full C33 depth-1 (8483) and depth-2 (64774) sets and 2202 definition programs (lengths 95-107, 0-5 parameters). Each program is rendered under every layout with <=1 gap (thorough: <=2 gaps for the representative, string-variant-of-representative and small-definition groups) deviating from the canonical layout, gap alphabet {glued, 1 space, 3 spaces, newline, newline+indent, blank lines, line comment, tab} incl. the gaps before the first and after the last token, and with every string literal (each literal position, and all at once) replaced by multi-line / brace-at-line-start / `//` / blank-line contents. Layouts the real parser does not map to the canonical tree are dropped and counted. Oracle on format(layout): parses without errors; structurally equal tree (the parser\'s own structural equality: identifiers, literal values, string contents, doc comments; positions, ids and comma positions ignored), same ordered comment texts, and the same text once whitespace and commas are erased. Exhaustive within these bounds.',
     note='The parser is trusted as the judge of "same tree" on both sides (it is checked against the printer by C33). Layouts with more simultaneous deviations than the bound, gap separators outside the alphabet (CR, form feed, block comments do not exist) and trees deeper than the sets are not covered.',
     design_ref='DESIGN.md §6 C17 / C18',
 )
@@ -25,7 +25,9 @@ def depth2_quick():
     small = [X, ("Call", X, [Y])]
     keep = lambda t: ((t[0] != "Bin" or t[2] in ("-", "<", "**", "&&", "^")) and (t[0] != "For" or t[1] == ("Sym", "v"))
                       and (t[0] != "Match" or len(t[2]) < 2 or t[2][0][0][0] != "Pair"))
-    return [t for t in gen.productions(O2, B2, S2, arg_pool=O2, small=small) if keep(t)]
+    conds = O2[:4]
+    keep2 = lambda t: t[0] not in ("If", "While", "For", "Match") or (t[2] if t[0] == "For" else t[1]) in conds
+    return [t for t in gen.productions(O2, B2, S2, arg_pool=O2, small=small) if keep(t) and keep2(t)]
 
 
 def base_groups(ctx, full_depth2=True):
@@ -58,6 +60,8 @@ def base_groups(ctx, full_depth2=True):
         if quick and id(b) in in_b1 and len(b.str_positions()) > 1:
             # quick: depth-1 trees with several literals get every position for the multi-line content only, the other contents all at once
             vs = [v for v in vs if v.variant.startswith("multi-line") or v.variant.endswith("@all")]
+        if quick and id(b) in in_b1:
+            vs = [v for v in vs if not v.variant.startswith("slashes")]      # the `//` content is kept for representatives and items
         variants += vs
     ok, rejected = layout.derive(ctx, variants)
     if rejected:
